@@ -259,9 +259,105 @@ func (c *checker) forEachByteMutantSel(stream uint64, data []byte, sel func(off 
 			}
 		}
 	})
+	c.forEachItemSubst(stream, data, f)
 }
 
 func clone(b []byte) []byte { return append([]byte(nil), b...) }
+
+// cborSpans returns the [start,end) spans of every data item of a well-formed,
+// definite-length CBOR encoding (nested items included); nil when data is not one.
+func cborSpans(data []byte) [][2]int {
+	var spans [][2]int
+	var item func(off, depth int) int
+	item = func(off, depth int) int {
+		if off < 0 || off >= len(data) || depth > 64 {
+			return -1
+		}
+		start := off
+		ib := data[off]
+		major, ai := ib>>5, ib&0x1f
+		off++
+		var val uint64
+		switch {
+		case ai < 24:
+			val = uint64(ai)
+		case ai >= 24 && ai <= 27:
+			n := 1 << (ai - 24)
+			if off+n > len(data) {
+				return -1
+			}
+			for i := 0; i < n; i++ {
+				val = val<<8 | uint64(data[off+i])
+			}
+			off += n
+		default:
+			return -1 // indefinite lengths / reserved: not produced by the code under test
+		}
+		switch major {
+		case 2, 3:
+			if val > uint64(len(data)-off) {
+				return -1
+			}
+			off += int(val)
+		case 4, 5:
+			cnt := val
+			if major == 5 {
+				cnt *= 2
+			}
+			if cnt > uint64(len(data)) {
+				return -1
+			}
+			for i := uint64(0); i < cnt; i++ {
+				if off = item(off, depth+1); off < 0 {
+					return -1
+				}
+			}
+		case 6:
+			if off = item(off, depth+1); off < 0 {
+				return -1
+			}
+		}
+		spans = append(spans, [2]int{start, off})
+		return off
+	}
+	if end := item(0, 0); end != len(data) {
+		return nil
+	}
+	return spans
+}
+
+// forEachItemSubst replaces whole CBOR data items (list entries, map values, nested
+// structures) by null / empty containers / zero: the alterations that turn a pointer-typed
+// field or a slice entry into nil on the Go side, which no single-byte change produces.
+func (c *checker) forEachItemSubst(stream uint64, data []byte, f func(bc byteCase)) {
+	spans := cborSpans(data)
+	if len(spans) < 2 {
+		return
+	}
+	reps := []struct {
+		name string
+		b    []byte
+	}{{"item-null", []byte{0xf6}}, {"item-empty-map", []byte{0xa0}}, {"item-empty-list", []byte{0x80}}, {"item-zero", []byte{0x00}}, {"item-empty-bytes", []byte{0x40}}}
+	stride := 1
+	if c.r.Quick() && len(spans) > 400 {
+		stride = len(spans)/400 + 1
+	}
+	phase := int(uint64(c.r.Seed) % uint64(stride))
+	evid.Parallel(len(spans), 0, func(i int) {
+		sp := spans[i]
+		if i%stride != phase || (sp[0] == 0 && sp[1] == len(data)) {
+			return
+		}
+		for _, rp := range reps {
+			if sp[1]-sp[0] == len(rp.b) && data[sp[0]] == rp.b[0] {
+				continue
+			}
+			out := append(append(append(make([]byte, 0, len(data)), data[:sp[0]]...), rp.b...), data[sp[1]:]...)
+			f(byteCase{off: sp[0], mut: rp.name, desc: fmt.Sprintf("item at bytes [%d,%d) replaced by %x", sp[0], sp[1], rp.b), data: out})
+		}
+	})
+	_ = stream
+}
 
 func cloneTxs(txs [][]byte) [][]byte {
 	out := make([][]byte, len(txs))
